@@ -411,11 +411,48 @@ def _install(tr: Tracer):
                 }
             tr.end(rec, exc)
 
+    GST_ARGS = ["lookahead", "preemption", "retract_schedules", "worker_pools", "policy", "branch_prediction_accuracy",
+                "release_taskgraphs", "debug"]
+    depth = {"n": 0}
+
     def gst(self, time, *a, **k):
-        res = orig_gst(self, time, *a, **k)
-        if tr.cur is not None and self is tr.sim._workload:
-            tr.cur["offers"].append([tr.task_index(t) for t in res])
-        return res
+        if tr.cur is None or self is not tr.sim._workload or depth["n"] > 0:
+            return orig_gst(self, time, *a, **k)
+        depth["n"] += 1
+        try:
+            res = orig_gst(self, time, *a, **k)
+            kw = dict(zip(GST_ARGS, a))
+            kw.update(k)
+            la = kw.get("lookahead", EventTime.zero())
+            pol = kw.get("policy")
+            rtg = bool(kw.get("release_taskgraphs", False))
+            rec = {
+                "tm": tr.tm(time),
+                "la": tr.tm(la),
+                "pre": bool(kw.get("preemption", False)),
+                "ret": bool(kw.get("retract_schedules", False)),
+                "pol": pol.name if pol is not None else "ALL",
+                "rtg": rtg,
+                "res": [tr.task_index(t) for t in res],
+                "probes": [],
+            }
+            # monotonicity probes on the same state (random state restored: RANDOM policy draws)
+            st = random.getstate()
+            try:
+                for dla, prtg in ((1, rtg), (4, rtg), (0, True)):
+                    kw2 = dict(kw)
+                    kw2["lookahead"] = la + EventTime(dla, EventTime.Unit.US)
+                    kw2["release_taskgraphs"] = prtg
+                    if kw2.get("policy") is not None and kw2["policy"].name == "RANDOM":
+                        continue
+                    r2 = orig_gst(self, time, **kw2)
+                    rec["probes"].append({"la": tr.tm(kw2["lookahead"]), "rtg": prtg, "res": [tr.task_index(t) for t in r2]})
+            finally:
+                random.setstate(st)
+            tr.cur["offers"].append(rec)
+            return res
+        finally:
+            depth["n"] -= 1
 
     class RandomProxy:
         def __getattr__(self, name):
@@ -522,10 +559,11 @@ def run_world(world, wall_limit=20):
     uninstall = None
 
     def on_alarm(signum, frame):
-        raise HangDetected(f"wall clock limit {wall_limit}s")
+        raise HangDetected(f"cpu time limit {wall_limit}s")
 
-    old = signal.signal(signal.SIGALRM, on_alarm)
-    signal.alarm(wall_limit)
+    # CPU time of this process (not wall clock): a loaded machine must not turn into a verdict
+    old = signal.signal(signal.SIGPROF, on_alarm)
+    signal.setitimer(signal.ITIMER_PROF, wall_limit)
     tr = None
     try:
         pools, sched, loader, flags, fl, sc = worlds.build(world)
@@ -547,7 +585,8 @@ def run_world(world, wall_limit=20):
             [[{"name": r.name, "id": r.id, "cap": q} for r, q in w.resources.resources] for w in pool.workers]
             for pool in pools.worker_pools
         ]
-        trace["flags"] = dict(fl, sched_rt=max(0, sc["runtime"]))
+        # no_plan_ahead: the policy only places at the invocation time (C18's "policies that do not plan ahead")
+        trace["flags"] = dict(fl, sched_rt=max(0, sc["runtime"]), no_plan_ahead=sc["kind"] in ("edf", "fifo", "lsf"))
         trace["sc"] = sc
         uninstall = _install(tr)
         sim.simulate()
@@ -557,8 +596,8 @@ def run_world(world, wall_limit=20):
         end["exc"] = f"{type(e).__name__}: {e}"[:500]
         end["tb"] = traceback.format_exc()[-1500:]
     finally:
-        signal.alarm(0)
-        signal.signal(signal.SIGALRM, old)
+        signal.setitimer(signal.ITIMER_PROF, 0)
+        signal.signal(signal.SIGPROF, old)
         if uninstall:
             uninstall()
     trace["recs"] = tr.recs if tr else []
